@@ -105,7 +105,7 @@ def run_misc(k):
     elif kind == 'residue':
         fn = lambda: limits.Residue(lambda z: 1.0 / np.expm1(z) ** a * (1 + z), pole_order=a, order=b)(0.0)
     elif kind == 'limit_path':
-        path = {1: 'radial', 2: 'spiral', 3: 'diagonal', 4: 'x'}[a]
+        path = {1: 'radial', 2: 'spiral', 3: 'diagonal', 4: 'x', 5: 'straight', 6: 'random', 7: 'Radial', 8: 's', 9: 'radial '}[a]
         if a == 2:      # spiral needs the complex machinery; constructing the generator is the guard point
             fn = lambda: limits.CStepGenerator(path=path)
         else:
